@@ -413,6 +413,12 @@ def _perturbed_range(cyl, start, d, eta_abs):
     return float(min(vals)), float(max(vals))
 
 
+# The regions of the findings C18.near_parallel_ray / C18.quadrature_rotation_negz were excluded from
+# the main facets while the defects were open (so that the search continued behind them).  Both are
+# fixed in /repo (0f05de2, 857587a); the regions are part of the main facets again.
+EXCLUDE_FIXED_FINDING_REGIONS = False
+
+
 def near_parallel_lossy(ref, cyl, start) -> bool:
     """Known-finding region C18.near_parallel_ray.  The implementation takes n x a (n: direction,
     a: axis) and combines it with the full vector b = base - start.  For a ray at angle t to the
@@ -440,7 +446,7 @@ def _judge_length(got, cyl, start, d, what, include_lossy):
     if ref["parallel"]:
         labs.append("exactly_parallel")
     if near_parallel_lossy(ref, cyl, start):
-        if not include_lossy:
+        if not include_lossy and EXCLUDE_FIXED_FINDING_REGIONS:
             return ["excluded:near-parallel(known finding region)"], None, 0.0
         labs.append("near-parallel-lossy")
     if not math.isfinite(got) or got < 0:
@@ -987,7 +993,7 @@ def check_transmission(case, include_lossy=False):
     cyl = case["cyl"]
     kind = case["kind"]
     lossy = beam_lossy(case["beam"], cyl["axis"])
-    if lossy and not include_lossy:
+    if lossy and not include_lossy and EXCLUDE_FIXED_FINDING_REGIONS:
         return ["excluded:beam-near-parallel(known finding region)"], False
     res = transmission_errors(case)
     lossy = lossy or res["moved_beam_lossy"]
@@ -1106,7 +1112,7 @@ FACETS = [
     Facet("path_subnormal_direction", check_path, enumerate=subnormal_cases,
           exhaustive_in=("quick", "thorough"), quick=(1, 0), thorough=(1, 0), min_nontrivial=0.5,
           doc="axis-aligned cylinder, ray perpendicular to the axis up to a subnormal component (384 cases)"),
-    Facet("quadrature", check_quadrature, strategy=lambda tier: quadrature_cases("sound"),
+    Facet("quadrature", check_quadrature, strategy=lambda tier: quadrature_cases("any"),
           quick=(2, 250), thorough=(16, 1500), min_nontrivial=0.5,
           doc="points inside the solid, weights > 0, sum = V, monomials to degree 1 (all kinds) / 3 "
               "(cheap) exact; axes with non-negative z-component, and -z"),
@@ -1116,7 +1122,7 @@ FACETS = [
     Facet("transmission_exact", check_exact, strategy=lambda tier: exact_cases(),
           quick=(2, 90), thorough=(16, 400), shrink=False, min_nontrivial=0.5,
           doc="0 < T <= 1, T = 1 at zero density, strictly decreasing in density, monotone in wavelength"),
-    Facet("transmission", check_transmission, strategy=lambda tier: transmission_cases("sound"),
+    Facet("transmission", check_transmission, strategy=lambda tier: transmission_cases("any"),
           quick=(3, 50), thorough=(16, 300), shrink=False, min_nontrivial=0.5,
           doc="agreement with the fine reference rule; invariance under rigid motion / other end; "
               "all axes involved have non-negative z-component (or are -z)"),
